@@ -28,7 +28,6 @@ def misc():
 
 class Harness(cm.BaseA):
     id = "C16"
-    fresh_quick = True  # every transition is re-executed from a fresh world (hidden state, aliasing)
     rule = (
         "synchronous product of an EvoWorklist world and a FluentWorklist world with identical labware: every "
         "sequence of <= depth core operations (failing ones included, at most two per execution) followed by any one "
